@@ -398,7 +398,11 @@ func (r *Runner) endSync(as *actorState, res syncResult) {
 			msg = msg[:300]
 		}
 	}
-	r.Trace.Emit(Obj{"ev": "SyncEnd", "a": as.name, "base": as.base, "sid": as.sid, "key": as.key, "result": result, "msg": msg,
+	phase := "other"
+	if strings.Contains(msg, "can't reconcile children") {
+		phase = "manage" // the response was accepted; a request of the reconcile phase failed
+	}
+	r.Trace.Emit(Obj{"ev": "SyncEnd", "a": as.name, "base": as.base, "sid": as.sid, "key": as.key, "result": result, "msg": msg, "errPhase": phase,
 		"queue": q, "fpDiff": r.fpDiff(as), "nreq": as.nreq})
 }
 
